@@ -439,10 +439,8 @@ func dumpMap(m map[any]any) string {
 	return "{" + strings.Join(parts, ",") + "}"
 }
 
+// nil and empty maps are not distinguished (the model does not track the difference)
 func dumpOptMap(m map[any]any) string {
-	if m == nil {
-		return "-"
-	}
 	return dumpMap(m)
 }
 
